@@ -223,6 +223,15 @@ def explore(ctx, factor, bs):
         one_case(ctx, L.render(form), tag="search:")
     for form in L.ref_message_family():
         one_case(ctx, L.render(form), tag="refmsg:")
+    fam = list(L.same_name_family())
+    rng.shuffle(fam)
+    for form in fam[: ctx.pick(60, len(fam))]:
+        one_case(ctx, L.render(form), tag="samename:")
+    fam = list(L.long_list_family())
+    rest = fam[2:]
+    rng.shuffle(rest)
+    for form in fam[:2] + rest[: ctx.pick(4, len(rest))]:
+        one_case(ctx, L.render(form), tag="longlist:")
     fam = list(L.unlabelled_family())
     rng.shuffle(fam)
     for form in fam[: ctx.pick(150, len(fam)) * (1 if factor == 1 else 2)]:
